@@ -1027,8 +1027,13 @@ pub fn pow<E: Copy, T: FastPow<E>>(
     base: TensorView<T>,
     exp: TensorView<E>,
 ) -> Result<Tensor<T>, OpError> {
-    if let Some(&exp) = exp.item() {
-        Ok(base.map_in(pool, |x| x.fast_pow(exp)))
+    // The scalar fast path produces an output with the shape of `base`. This
+    // is only the broadcast shape if the exponent has no more dimensions than
+    // the base (eg. `[4] ^ [1, 1]` has shape `[1, 4]`).
+    if let Some(&exp_scalar) = exp.item()
+        && exp.ndim() <= base.ndim()
+    {
+        Ok(base.map_in(pool, |x| x.fast_pow(exp_scalar)))
     } else {
         binary_op(pool, base, exp, &|b: T, e: E| b.fast_pow(e))
     }
